@@ -4,6 +4,7 @@ CONSTANTS
   DEV_NoInvalidateOnPredictionTR = FALSE
   DEV_NoReindexOnNetworkTR = FALSE
   DEV_NoInvalidateCycle = FALSE
+  DEV_MergeRebuildOnlyIfAll = FALSE
 VIEW View
 INVARIANT InvFresh
 PROPERTY PropHistory
